@@ -132,3 +132,23 @@ package corerad
 //@   ensures E3 [C12]: len(result) == 1 ==> result[0].Field == "captive_portal" && result[0].Details == ""
 //@   opt safety [C12]
 //@   opt frame [C12]
+
+// ---------------------------------------------------------------------------
+// advertise.go: scheduler (C06 rate limiting, C07 unicast delay)
+
+//@ func (*Advertiser).schedule
+//@   ghost local lastFire Int
+//@   ghost local trigger Int
+//@   ghost local awaiting Bool
+//@   ghost local started Bool
+//@   requires P0: ctx != nil && a.minDelayBetweenRAs > 0 && a.minDelayBetweenRAs <= secs(3600)
+//@   assigns ghost.now, ghost.done, ghost.scheduled
+//@   at call time.Now() (t) when !ghost.started: ghost.lastFire = t ; ghost.started = true
+//@   at call time.Now() (t) when ghost.awaiting: ghost.trigger = t ; ghost.awaiting = false
+//@   loop 1 invariant M0: ghost.started && a.minDelayBetweenRAs > 0 && a.minDelayBetweenRAs <= secs(3600) && timeSane(ghost.now)
+//@   loop 1 invariant M1 [C06]: ghost.lastFire <= lastMulticast
+//@   loop 1 invariant M2 [C06]: lastMulticast <= ghost.now + a.minDelayBetweenRAs
+//@   at recv ipC(v): ghost.awaiting = true
+//@   at call Delay(sg, dl, fn) when !addrIsMulticast(ip): assert U2 [C07]: 0 <= dl && dl < ms(500)
+//@   at call Delay(sg, dl, fn) when addrIsMulticast(ip): assert R1 [C06]: ghost.now + dl >= ghost.lastFire + a.minDelayBetweenRAs ; assert R2 [C06]: ghost.now + dl <= ghost.trigger + a.minDelayBetweenRAs && ghost.now + dl >= ghost.trigger ; ghost.lastFire = ghost.now + dl
+//@   opt safety [C06]
